@@ -81,7 +81,7 @@ class ThreadWorker(Worker):
             undesired as it will kill the caller thread as well,
             therefore, unlike other workers, by default it is disabled.
         '''
-        if timeout < 0:
+        if timeout is not None and timeout < 0:
             raise ValueError('Negative timeout')
 
         if not self.is_alive():
